@@ -122,6 +122,9 @@ func NewReader(src BlockSource, name string) (*Reader, error) {
 	if err != nil {
 		return nil, err
 	}
+	if len(headBlock) < headerSize(1)+1 {
+		return nil, fmt.Errorf("reftable: file too small (%d bytes)", src.Size())
+	}
 	if bytes.Compare(headBlock[:4], magic[:]) != 0 {
 		return nil, fmt.Errorf("reftable: got magic %q, want %q", headBlock[:4], magic)
 	}
@@ -129,6 +132,10 @@ func NewReader(src BlockSource, name string) (*Reader, error) {
 	version := int(headBlock[4])
 	if version != 1 && version != 2 {
 		return nil, fmt.Errorf("reftable: unsupported version %d", version)
+	}
+	if len(headBlock) < headerSize(version)+1 ||
+		src.Size() < uint64(headerSize(version)+footerSize(version)) {
+		return nil, fmt.Errorf("reftable: file too small (%d bytes)", src.Size())
 	}
 
 	r := &Reader{
@@ -141,6 +148,9 @@ func NewReader(src BlockSource, name string) (*Reader, error) {
 	footBlock, err := src.ReadBlock(r.size, footerSize(version))
 	if err != nil {
 		return nil, err
+	}
+	if len(footBlock) != footerSize(version) {
+		return nil, fmt.Errorf("reftable: short read of footer")
 	}
 
 	if 0 != bytes.Compare(headBlock[:headerSize(version)], footBlock[:headerSize(version)]) {
@@ -161,6 +171,11 @@ func NewReader(src BlockSource, name string) (*Reader, error) {
 		return nil, err
 	}
 
+	switch r.header.HashID {
+	case SHA1ID, SHA256ID:
+	default:
+		return nil, fmt.Errorf("reftable: unknown hash ID %q", r.header.HashID)
+	}
 	r.hashSize = r.header.HashID.Size()
 	r.header.BlockSize &= (1 << 24) - 1
 
